@@ -283,6 +283,7 @@ MODELS = [
     (r'<HeaderValue as TryFrom<.*>>::try_from$|HeaderValue::from_str$|<HeaderValue as FromStr>::from_str$', m_hvalue_try_from),
     (r'HeaderMap::try_append::|HeaderMap::<.*>::try_append::|HeaderMap::append::|HeaderMap::<.*>::append::', m_hm_try_append),
     (r'HeaderMap::insert::|HeaderMap::<.*>::insert::', m_hm_insert),
+    (r'HeaderMap::try_insert::|HeaderMap::<.*>::try_insert::', lambda ex, a, c: ex.ok(m_hm_insert(ex, a, c))),
     (r'HeaderMap::new$|HeaderMap::<.*>::new$', lambda ex, a, c: HMap()),
     (r'HeaderMap::reserve$|HeaderMap::<.*>::reserve$', lambda ex, a, c: Tup([])),
     (r'HeaderMap::len$|HeaderMap::<.*>::len$', lambda ex, a, c: len(dv(a[0]).entries)),
